@@ -247,7 +247,13 @@ OPENLOOP_M_SRC = """
 from pymtl3 import *
 class Inner(Component):
   def construct(s, order):
-    s.log = []
+    s.log = []; s.cyc = 0; s.runs = []
+    @update
+    def up_count():            # a cycle-level block with a side effect: once per cycle
+      s.runs.append(s.cyc)
+    @update_ff
+    def ff_cyc():
+      s.cyc += 1
     s.add_constraints( *[ M(getattr(s, f'm{a}')) < M(getattr(s, f'm{b}')) for a, b in zip(order, order[1:]) ] )
   @non_blocking(lambda s: True)
   def m0(s): s.log.append(0)
@@ -307,6 +313,13 @@ def run_openloop_methods(sh, case):
                        "extra_cycles_between_the_two_calls": fwd, "inner_log": top.inner.log[-4:], "declared_chain": order, "source": OPENLOOP_M_SRC}, case=("openloop-m", case)); return
         c1 = top.sim_cycle_count(); top.c[b](); top.c[a]()
         if top.sim_cycle_count() - c1 > 0: sh.count("openloop_reverse_order_needed_a_new_cycle")
+        # every update block ran exactly once in each cycle that is complete (the last one is still open), also in the first cycle after sim_reset
+        runs = list(top.inner.runs); done = top.inner.cyc
+        per = {c_: runs.count(c_) for c_ in range(done)}
+        sh.count("openloop_block_executions_per_cycle_checked", len(per))
+        if any(v != 1 for v in per.values()):
+          sh.violation("update-block-not-executed-exactly-once-per-cycle-in-open-loop-simulation", {"executions_per_cycle": per, "cycles_completed": done,
+                       "history": "sim_reset(), then method calls", "source": OPENLOOP_M_SRC}, case=("openloop-once", case)); return
   finally:
     G.unload(mod)
 
